@@ -98,7 +98,7 @@ where
     const MIN_SIZE: usize = Self::DATA_OFFSET;
 
     fn size(&self) -> usize {
-        Self::DATA_OFFSET + T::SIZE * self.len()
+        ceil_mul(Self::DATA_OFFSET + T::SIZE * self.len(), Self::ALIGN)
     }
 }
 
